@@ -228,6 +228,29 @@ def run_case(case):
         if not np.allclose(got, p0, rtol=1e-12, atol=0):
             r.violation(f'C13:container-dependence:{name}', f'{tag}: pdf through {name} differs from the DataFrame result',
                         case=case)
+    # narrower float types: the density of float32 / float16 query points is the density of those very points (the width of
+    # the container's dtype must not leak into the computation)
+    for dt in (np.float32, np.float16):
+        with np.errstate(all='ignore'):
+            Qn = Q.astype(dt)
+        if not np.all(np.isfinite(Qn.astype(float))):
+            Qn = Qn[np.all(np.isfinite(Qn.astype(float)), axis=1)]
+        if len(Qn) == 0:
+            continue
+        want = pdf_of(pd.DataFrame(Qn.astype(np.float64), columns=cols))
+        for name, obj in ((f'{np.dtype(dt).name} DataFrame', pd.DataFrame(Qn, columns=cols)), (f'{np.dtype(dt).name} ndarray', Qn.copy())):
+            try:
+                got = pdf_of(obj)
+            except Exception as e:
+                r.violation(f'C13:container-dependence:{np.dtype(dt).name}:raises', f'{tag}: pdf of a {name} raised '
+                            f'{type(e).__name__}: {e}', case=case)
+                continue
+            r.ev(len(Qn))
+            if got.shape != want.shape or not np.allclose(got, want, rtol=1e-8, atol=0, equal_nan=True):
+                j = int(np.argmax(np.abs(got - want) / np.maximum(np.abs(want), 1e-300))) if got.shape == want.shape else 0
+                r.violation(f'C13:container-dependence:{np.dtype(dt).name}', f'{tag}: pdf of row {Qn[j].tolist()} given in a {name} '
+                            f'is {got[j] if got.shape == want.shape else got.shape!r}, the same values as float64 give {want[j]!r}',
+                            case=case)
     for i in (0, 5, 13, m - 1):
         one_series = pdf_of(base_df.iloc[i])
         one_series_perm = pdf_of(base_df.iloc[i][cols[::-1]])
